@@ -3,7 +3,7 @@
 
 use std::collections::{BTreeMap, BTreeSet};
 
-use crate::abs::{AEdge, Abs, Id, Kind};
+use crate::abs::{AEdge, Abs, Id};
 
 /// The delay an operator declares for (all of) its inputs, from the operator documentation:
 /// `defer_tick()` delays by a tick, `defer_tick_lazy()` by a tick without scheduling one.
@@ -278,6 +278,8 @@ pub fn check_c18(f: &Abs, p: &Abs, colors: &Colors) -> (Vec<Fail>, C18Stats) {
         fail(&mut out, "order-not-permutation", format!("order {:?} is not a permutation of subgraphs {:?}", p.order, p.subgraphs.keys().collect::<Vec<_>>()));
         return (out, st);
     }
+    // order failures are classified by whether the two operators sit in different loop contexts
+    let across = |a: Id, b: Id| -> bool { p.nodes.get(&a).map(|n| n.loop_id) != p.nodes.get(&b).map(|n| n.loop_id) };
     let before = |a: Id, b: Id| -> Option<bool> {
         let (sa, sb) = (sg_of(a)?, sg_of(b)?);
         Some(pos.get(&sa)? < pos.get(&sb)?)
@@ -291,7 +293,7 @@ pub fn check_c18(f: &Abs, p: &Abs, colors: &Colors) -> (Vec<Fail>, C18Stats) {
             for o in p.succs(*id) {
                 st.order_constraints += 1;
                 if before(i.src, o.dst) == Some(false) {
-                    fail(&mut out, "order-handoff-producer-after-consumer", format!("handoff {id}: producer {} (sg {:?}) does not run before consumer {} (sg {:?}); order {:?}", i.src, sg_of(i.src), o.dst, sg_of(o.dst), p.order));
+                    fail(&mut out, if across(i.src, o.dst) { "order-handoff-producer-after-consumer|across-loop-boundary" } else { "order-handoff-producer-after-consumer|same-loop-context" }, format!("handoff {id}: producer {} (sg {:?}) does not run before consumer {} (sg {:?}); order {:?}", i.src, sg_of(i.src), o.dst, sg_of(o.dst), p.order));
                 }
             }
         }
@@ -310,15 +312,17 @@ pub fn check_c18(f: &Abs, p: &Abs, colors: &Colors) -> (Vec<Fail>, C18Stats) {
             for i in p.preds(t) {
                 st.order_constraints += 1;
                 if before(i.src, *id) == Some(false) {
-                    fail(&mut out, "order-ref-producer-after-consumer", format!("node {id} (sg {:?}, loop {:?}) reads #{t} whose producer {} (sg {:?}) is not ordered before it; order {:?}", sg_of(*id), n.loop_id, i.src, sg_of(i.src), p.order));
+                    fail(&mut out, if across(i.src, *id) { "order-ref-producer-after-consumer|across-loop-boundary" } else { "order-ref-producer-after-consumer|same-loop-context" }, format!("node {id} (sg {:?}, loop {:?}) reads #{t} whose producer {} (sg {:?}) is not ordered before it; order {:?}", sg_of(*id), n.loop_id, i.src, sg_of(i.src), p.order));
                 }
             }
             // a borrower runs before the (same-tick) pipe consumer that drains the handoff
             if tn.delay.is_none() {
                 for o in p.succs(t) {
                     st.order_constraints += 1;
-                    if before(*id, o.dst) == Some(false) {
-                        fail(&mut out, "order-borrower-after-consumer", format!("node {id} (sg {:?}) borrows #{t} but its consumer {} (sg {:?}) is not ordered after it; order {:?}", sg_of(*id), o.dst, sg_of(o.dst), p.order));
+                    if sg_of(*id).is_some() && sg_of(*id) == sg_of(o.dst) {
+                        fail(&mut out, "borrower-shares-subgraph-with-consumer", format!("node {id} borrows #{t} while the handoff's pipe consumer {} sits in the same subgraph {:?} (the consumer drains the handoff when the subgraph starts)", o.dst, sg_of(*id)));
+                    } else if before(*id, o.dst) == Some(false) {
+                        fail(&mut out, if across(*id, o.dst) { "order-borrower-after-consumer|across-loop-boundary" } else { "order-borrower-after-consumer|same-loop-context" }, format!("node {id} (sg {:?}) borrows #{t} but its consumer {} (sg {:?}) is not ordered after it; order {:?}", sg_of(*id), o.dst, sg_of(o.dst), p.order));
                     }
                 }
             }
@@ -330,7 +334,7 @@ pub fn check_c18(f: &Abs, p: &Abs, colors: &Colors) -> (Vec<Fail>, C18Stats) {
                 if ga < gb {
                     st.order_constraints += 1;
                     if before(*a, *b) == Some(false) {
-                        fail(&mut out, "order-access-group", format!("handoff {t}: access group {:?} user {a} (sg {:?}) does not run before group {:?} user {b} (sg {:?}); order {:?}", ga, sg_of(*a), gb, sg_of(*b), p.order));
+                        fail(&mut out, if across(*a, *b) { "order-access-group|across-loop-boundary" } else { "order-access-group|same-loop-context" }, format!("handoff {t}: access group {:?} user {a} (sg {:?}) does not run before group {:?} user {b} (sg {:?}); order {:?}", ga, sg_of(*a), gb, sg_of(*b), p.order));
                     }
                 }
             }
@@ -529,12 +533,4 @@ pub fn contract_unary_unions_tees(g: &Abs) -> Option<Abs> {
         }
     }
     Some(r)
-}
-
-pub fn has_unary_union_tee_cycle(g: &Abs) -> bool {
-    contract_unary_unions_tees(g).is_none()
-}
-
-pub fn is_kind_op(k: &Kind) -> bool {
-    matches!(k, Kind::Op { .. })
 }
